@@ -190,7 +190,10 @@ def run(ctx):
         r = ctx.mc_expect_ok("p2p/MC_Envelope.tla", "MC_Envelope.cfg", what="envelope parser machine vs adversarial streams")
         ctx.exhaustive.append("MC_Envelope: 2 networks x 4 commands x 6 payloads x every truncation / single-byte corruption / trailing / inflated length (%d states)" % r.distinct)
     if ctx.want("cases"):
-        cases = env_cases(ctx, rng, not q) + int_cases(ctx, rng) + msg_cases(ctx, rng)
+        cases = []
+        for rep in range(1 if q else 12):       # thorough: 12 rounds of the randomised generators (new commands, payloads, flips, field values)
+            rnd = env_cases(ctx, rng, (not q) and rep == 0) + int_cases(ctx, rng) + msg_cases(ctx, rng)
+            cases += [dict(c, id="r%d.%s" % (rep, c["id"])) for c in rnd]
         for c in cases:
             c.setdefault("hr", [])
         byid = {c["id"]: c for c in cases}
